@@ -203,8 +203,8 @@ def is_zero(v):
 def outcome_equal(a, b):
     """Outcomes: ('exc', typename) | ('mv', keys, values) | ('seq', [outcomes]) | ('val', v).
 
-    Returns (equal, storage_only_difference).  A blade that is not stored reads as 0; a difference
-    only in *which* blades are stored is not a difference of value.
+    Returns (equal, storage_only_difference).  A blade that is not stored reads as 0; the second item says
+    whether the two sides, equal on every blade, store their blades differently: False, 'order' or 'blades'.
     """
     if a[0] != b[0]:
         return False, False
@@ -218,7 +218,8 @@ def outcome_equal(a, b):
         eq, st = True, False
         for x, y in zip(a[2], b[2]):
             e, s = outcome_equal(x, y)
-            eq, st = eq and e, st or s
+            eq = eq and e
+            st = 'blades' if 'blades' in (st, s) else (st or s)
         return eq, st
     if a[0] == 'mv':
         da, db = _mvdict(a), _mvdict(b)
@@ -227,7 +228,13 @@ def outcome_equal(a, b):
         for k in set(da) | set(db):
             if not val_equal(da.get(k, 0), db.get(k, 0)):
                 return False, False
-        storage = (tuple(a[1]) != tuple(b[1]))
+        # 'order': the same blades stored in another order; 'blades': other blades stored (all extra ones zero)
+        if tuple(a[1]) == tuple(b[1]):
+            storage = False
+        elif set(a[1]) == set(b[1]):
+            storage = 'order'
+        else:
+            storage = 'blades'
         return True, storage
     return False, False
 
